@@ -99,3 +99,31 @@ Proof.
   exists s'. split; [exact Hs'|]. split; [exact HI'|]. split; [|exact Hw].
   unfold uabs, mkr in Habs. injection Habs as _ Hpos _. symmetry. exact Hpos.
 Qed.
+
+(* same codeword, same returned length with the argument-checking flag on or off (L0 level) *)
+Theorem flag_irrelevant E D id p fl v s : valid id p v ->
+  wrun (swprims E true) (sel_write E D true id p fl v) s = wrun (swprims E false) (sel_write E D false id p fl v) s.
+Proof.
+  intros Hv.
+  destruct (codes_correct E D true id p fl v Hv) as (H1 & _ & _).
+  destruct (codes_correct E D false id p fl v Hv) as (H2 & _ & _).
+  rewrite H1, H2. reflexivity.
+Qed.
+
+(* ... and on the machine: from related states, both builds either report a full sink or append the
+   same codeword and return the same length *)
+Theorem flag_irrelevant_machine E W D id p fl v b s1 s2 :
+  wrel E W b s1 -> wrel E W b s2 -> valid id p v ->
+  match wrun (bwprims E W true) (sel_write E D true id p fl v) s1,
+        wrun (bwprims E W false) (sel_write E D false id p fl v) s2 with
+  | Ok (l1, t1), Ok (l2, t2) => l1 = l2 /\ wabs E W t1 = wabs E W t2 /\ WInv W t1 /\ WInv W t2
+  | Ok _, Err | Err, Ok _ | Err, Err => True
+  | _, _ => False
+  end.
+Proof.
+  intros R1 R2 Hv.
+  destruct (code_write_machine_checks E W D id p fl v b s1 R1 Hv) as [(t1 & H1 & I1 & A1)|H1];
+  destruct (code_write_machine E W D id p fl v b s2 R2 Hv) as [(t2 & H2 & I2 & A2)|H2];
+  rewrite H1, H2; cbv beta iota; try exact I.
+  split; [reflexivity|]. split; [rewrite A1, A2; reflexivity|]. split; assumption.
+Qed.
